@@ -1,8 +1,9 @@
 from collections import OrderedDict
+import datetime
 import enum
 import json
 import logging
-from pathlib import Path, PosixPath, WindowsPath
+from pathlib import Path, PosixPath, PurePath, WindowsPath
 import re
 from typing import Any, AnyStr, Callable, IO, List, Optional, Union, cast
 from typing_extensions import Protocol, Type
@@ -66,6 +67,20 @@ class Dumper(yaml.SafeDumper):
             self._kv_sep = ': '
         else:
             self._kv_sep = ':'
+
+    def ignore_aliases(self, data: Any) -> bool:
+        """Whether to write data out in full each time it occurs.
+
+        This is called by PyYAML. Like strings and numbers, dates and
+        paths are immutable scalar values, so they are never written
+        as an anchor and an alias if the same object occurs twice.
+
+        Args:
+            data: The object about to be represented.
+        """
+        if isinstance(data, (datetime.date, PurePath)):
+            return True
+        return bool(yaml.SafeDumper.ignore_aliases(self, data))
 
     def emit(self, event: yaml.events.Event) -> None:
         """Emit an event.
